@@ -238,8 +238,11 @@ Proof. exact rself_walker_offset_before_fix_refuted. Qed.
    pointer (rRecurp, the object exists while a toggle of the parent table is on) -,
    optionally "enabled by" a toggle of the parent table ("tg") or a toggle inside the
    sub-tree itself ("name/tg", "name#N/tg": element name<i>/ is switched by name<i>/tg; the
-   switch governs the other ports below, not itself).  [app_of_tree t] is the abstract
-   application: one port per leaf under every expansion of the sub-trees above it.
+   switch governs the other ports below, not itself); non-parameter ports "name:", among them
+   rSelf's "self:" whose 'enabled by' names a toggle of the same table (it governs every other
+   port of the table and below).  [app_of_tree t] is the abstract application: one port per
+   leaf under every expansion of the sub-trees above it; a non-parameter port has an entry
+   without default (walked, never saved, no theorem sends it a message).
 
    The callback of a leaf (C14's model of the macro, SugarModel.step) stores exactly
    what SaveModel.store says - clamp(v) (rLIMIT = clampK: the core of C14_clamp; for
@@ -381,10 +384,13 @@ Proof. exact walk_addresses. Qed.
    rEnabledBy writes; both forms of the property are covered: a toggle of the parent table,
    and the inner switch "name/tg" / "name#N/tg" (the walk does not enter the disabled
    sub-tree but is applied to the switch, C09's skipped_reports: the switch is the one live
-   port below).  switches_ok (decidable, Save/TreeApp.v): the property is a C string; the
-   inner form names a toggle leaf that Ports::operator[] finds in the sub-table, the other
-   form is one name (no '/').  Distinct port addresses: the switch is told from the ports
-   it governs by its address. *)
+   port below).  Likewise the rSelf form: while the toggle the table's "self:" port names is
+   off, walk_ports does not look at the table but is applied to that toggle (C09's
+   self_toggle).  switches_ok (decidable, Save/TreeApp.v): the property is a C string; the
+   inner form names a toggle leaf that Ports::operator[] finds in the sub-table (the same one
+   as that table's rSelf, if it has one), the other form is one name (no '/'); the rSelf
+   port is the one Ports::operator[]("self:") finds and names a toggle leaf of its table.
+   Distinct port addresses: the switch is told from the ports it governs by its address. *)
 Theorem C12_walk_live_reports : forall t st,
   names_ok (sports_of t) = true -> switches_ok t = true ->
   NoDup (map dir_addr (dirs_root t)) -> NoDup (map p_path (app_of_tree t)) ->
@@ -454,6 +460,28 @@ Theorem C12_walk_inner_switch_nonvacuous :
   walk_tree sw_tree sw_state = [0; 1; 3; 4; 5]%nat /\
   filter (live a sw_state) (seq 0 (length a)) = [0; 1; 3; 4; 5]%nat.
 Proof. exact walk_inner_switch_nonvacuous. Qed.
+
+(* the rSelf form: { x, d/ -> { self: (enabled by "on"), on, y, e/ -> { z } },
+   b/ (enabled by "b/on") -> { self: (enabled by "on"), w, on } } (in b/ both forms name one
+   switch).  "self:" has an entry without default; the switch governs everything else in its
+   table and below.  From a default-initialised instance the walk reaches /x, /d/on, /b/on;
+   with /d/on on everything below d/ as well. *)
+Theorem C12_walk_rself_nonvacuous :
+  let a := app_of_tree self_tree in
+  names_ok (sports_of self_tree) = true /\ switches_ok self_tree = true /\
+  NoDup (map dir_addr (dirs_root self_tree)) /\ NoDup (map p_path a) /\ NoDup (app_addresses a) /\
+  (forall i, (i < length a)%nat -> (0 < p_len (port_at a i))%nat) /\
+  map (fun p => (p_path p, p_soft p, p_nodef p)) a =
+    [ ([47; 120], [], false);
+      ([47; 100; 47; 115; 101; 108; 102], [2%nat], true);    ([47; 100; 47; 111; 110], [], false);
+      ([47; 100; 47; 121], [2%nat], false);                  ([47; 100; 47; 101; 47; 122], [2%nat], false);
+      ([47; 98; 47; 115; 101; 108; 102], [7%nat; 7%nat], true);
+      ([47; 98; 47; 119], [7%nat; 7%nat], false);            ([47; 98; 47; 111; 110], [], false) ] /\
+  walk_tree self_tree (initial a) = [0; 2; 7]%nat /\
+  filter (live a (initial a)) (seq 0 (length a)) = [0; 2; 7]%nat /\
+  walk_tree self_tree self_state = [0; 1; 2; 3; 4; 7]%nat /\
+  filter (live a self_state) (seq 0 (length a)) = [0; 1; 2; 3; 4; 7]%nat.
+Proof. exact walk_rself_nonvacuous. Qed.
 
 (* ======================================================================== *)
 (* Stage 5: the print/scan stage (C10)                                         *)
